@@ -108,6 +108,84 @@ def r3_cells(rule, root=None):
             rule.bad("leaf|%s" % what[:24], "leaf: %s (`%s` not found)" % (what, alts[0][:60]), A.where(lf))
 
 
+def _merge_remap(rule, fn):
+    """the index shift applied to a task's cells, wherever it is written (closure, nested fn, inline): a Leaf's
+    vertex index moves by vert_offsets[i], a Branch's cell index by cell_offsets[i], Full / Empty stay; it is
+    applied to every cell of the task and to the task's root, which goes to the slot it was built for"""
+    from .. import effects as E
+
+    view = A.inline_helpers(fn)
+    ms = []
+    in_items = set()
+    for it in A.find(view, "Fn"):
+        for n_ in A.walk(it):
+            if isinstance(n_, dict):
+                in_items.add(id(n_))
+    # a closure that is also passed by name (`cs.map(remap_cell)`) stays a closure: its parameters are the cell
+    closures = {}
+    for s_ in A.find(view, "Let"):
+        i_ = A.strip(s_.get("init")) if s_.get("init") is not None else None
+        if i_ is not None and i_.get("k") == "Closure" and A.binding_name(s_["pat"]):
+            closures[A.binding_name(s_["pat"])] = i_
+    for m in A.find(view, "Match"):
+        if id(m) in in_items:
+            continue  # the definition of a nested fn: read where it is called (inlined)
+        arms = {}
+        for arm in m["arms"]:
+            for p_ in A.flatten_or(arm["pat"]):
+                segs, _subs = A.pat_variant(p_) if p_.get("k") in ("PTupleStruct", "PStruct", "PPath", "PIdent") else (None, None)
+                if segs and segs[0] == "Cell" or (segs and len(segs) >= 2 and segs[-2] == "Cell"):
+                    arms[segs[-1]] = arm
+        if {"Leaf", "Branch"} <= set(arms) and all(any(b_["op"] == "+" for b_ in A.find(arms[k_]["body"], "Binary")) for k_ in ("Leaf", "Branch")):
+            ms.append((m, arms))
+    if not ms:
+        rule.lost("the Leaf / Branch index shift in build_inner_mt")
+        return
+    facts = {"leaf": True, "branch": True, "same": True}
+    why = {}
+    for m, arms in ms:
+        env = E.env_at(view, m)
+        for kind_, arm, want in (("leaf", arms["Leaf"], "vert_offsets[i]"), ("branch", arms["Branch"], "cell_offsets[i]")):
+            adds = [b_ for b_ in A.find(arm["body"], "Binary") if b_["op"] == "+"]
+            ok_ = False
+            for b_ in adds:
+                l_, r_ = E.canon(b_["left"], env), E.canon(b_["right"], env)
+                if {l_, r_} == {"index", want}:
+                    ok_ = True
+            built = [s_ for s_ in list(A.find(arm["body"], "Struct")) + list(A.find(arm["body"], "Call")) if ((A.path_segs(s_.get("path") or s_.get("func")) or [None])[-1]) in ("Leaf", "Branch")]
+            if not ok_ or not built:
+                facts[kind_] = False
+                why[kind_] = str(txt(arm["body"]))[:80]
+        for k_ in ("Full", "Empty"):
+            if k_ in arms:
+                body_ = str(txt(A.unblock(arms[k_]["body"])))
+                if body_ != str(txt(A.strip(m["e"]))) and body_ not in ("c", "*c"):
+                    facts["same"] = False
+    for key, what in (("leaf", "leaf vertex indices shift by this task's vertex offset only"), ("branch", "branch indices shift by this task's cell offset only"), ("same", "full / empty cells are unchanged")):
+        if facts[key]:
+            rule.ok("mt merge: %s" % what, file=OCT, line=fn["ln"])
+        else:
+            rule.bad("merge|%s" % what[:28], "multithreaded merge: %s (found `%s`)" % (what, why.get(key, "?")), A.where(fn))
+    tv = str(txt(view))
+    if "root.cells.extend(o.octree.cells.into_iter().map(" in tv and "root.verts.extend(o.octree.verts)" in tv and tv.index("root.cells.extend(o.octree.cells") < tv.index("root.verts.extend(o.octree.verts)"):
+        rule.ok("mt merge: every cell of the task is remapped and appended, then its vertices", file=OCT, line=fn["ln"])
+    else:
+        rule.bad("merge|every cell of the task is re", "multithreaded merge: every cell of the task must be remapped and appended to root.cells, then its vertices to root.verts", A.where(fn))
+    roots = [a for a in A.find(view, "Assign") if str(txt(a["left"])) == "root[o.cell]"]
+    def applies_shift(e):
+        if any(any(n is m for n in A.walk(e)) for m, _a in ms):
+            return True
+        e_ = A.strip(e)
+        if e_.get("k") == "Call" and A.ident(A.strip(e_["func"])) in closures:
+            return any(any(n is m for n in A.walk(closures[A.ident(A.strip(e_["func"]))])) for m, _a in ms)
+        return False
+
+    if len(roots) == 1 and applies_shift(roots[0]["right"]) and "o.octree.root" in str(txt(roots[0]["right"])):
+        rule.ok("mt merge: the task's root goes to the slot of the cell it was built for", file=OCT, line=fn["ln"])
+    else:
+        rule.bad("merge|the task's root goes to the ", "multithreaded merge: the task's (remapped) root must be stored at root[o.cell]", A.where(fn))
+
+
 def r2_merge_offsets(rule, root=None):
     fn = A.find_fn(OCT, "build_inner_mt", self_ty="Octree", root=root)
     t = txt(fn["body"])
@@ -117,14 +195,10 @@ def r2_merge_offsets(rule, root=None):
         ("each task adds its own cell count", "letc=(cell_offsets.last().unwrap()+o.octree.cells.len());cell_offsets.push(c);"),
         ("each task adds its own vertex count", "letv=(vert_offsets.last().unwrap()+o.octree.verts.len());vert_offsets.push(v);"),
         ("offsets are tied to the arrays as they grow", "assert_eq!(cell_offsets[i],root.cells.len());assert_eq!(vert_offsets[i],root.verts.len());"),
-        ("leaf vertex indices shift by this task's vertex offset only", "Cell::Leaf(Leaf{mask:mask,index:index})=>Cell::Leaf(Leaf{mask:mask,index:(index+vert_offsets[i])})"),
-        ("branch indices shift by this task's cell offset only", "Cell::Branch{index:index}=>Cell::Branch{index:(index+cell_offsets[i])}"),
-        ("full / empty cells are unchanged", "Cell::Full | Cell::Empty=>c"),
-        ("every cell of the task is remapped and appended, then its vertices", "root.cells.extend(o.octree.cells.into_iter().map(|cs|cs.map(remap_cell)));root.verts.extend(o.octree.verts);"),
-        ("the task's root goes to the slot of the cell it was built for", "root[o.cell]=remap_cell(o.octree.root);"),
         ("hermite data returns to the slot of the task's cell", "let(i,j)=o.cell.index.unwrap();hermites[i][(jasusize)]=o.hermite;"),
         ("merging walks back up in reverse creation order", "for(cell,index)infixup.into_iter().rev()"),
     ]
+    _merge_remap(rule, fn)
     for what, frag in need:
         f2 = frag.replace("Cell::Full | Cell::Empty", "Cell::Full|Cell::Empty")
         if frag in t or f2 in t:
